@@ -41,20 +41,58 @@ def seeded_md():
     if not os.path.exists(f):
         return '(no results yet)'
     res = json.load(open(f))
-    out = ['| seeded change | what it does | needs to manifest | caught by | rule existed before the change was seen |\n|---|---|---|---|---|']
+    r2 = json.load(open('/verif/seeded/ROUND2_BLIND.json')) if os.path.exists('/verif/seeded/ROUND2_BLIND.json') else {'blind_detected': {}, 'notes': {}}
+    out = ['| seeded change | round | what it does | needs to manifest | caught by (now) | detected blind (rule existed before the change was seen) |\n|---|---|---|---|---|---|']
+    nb = [0, 0, 0, 0]
     for k in sorted(res):
         m = json.load(open('/verif/seeded/%s/meta.json' % k))
         s = (m.get('summary') or '')[:160].replace('|', '/').replace('\n', ' ')
         nd = str(m.get('needs_to_manifest') or '')[:140].replace('|', '/').replace('\n', ' ')
-        blind = m.get('static_check_result', {}).get('rule_existed_before_this_change_was_seen')
-        out.append('| %s | %s | %s | %s | %s |' % (k, s, nd, ', '.join(res[k].get('rules', [])) or res[k]['status'], 'yes' if blind else 'no'))
+        if k in r2['blind_detected']:
+            rnd, blind = 2, r2['blind_detected'][k]
+        else:
+            rnd, blind = 1, bool(m.get('static_check_result', {}).get('rule_existed_before_this_change_was_seen'))
+        nb[(rnd - 1) * 2] += 1
+        nb[(rnd - 1) * 2 + 1] += 1 if blind else 0
+        note = r2['notes'].get(k, '')
+        out.append('| %s | %d | %s | %s | %s | %s |' % (k, rnd, s, nd, ', '.join(res[k].get('rules', [])) or res[k]['status'],
+                                                         ('yes' if blind else 'no') + ((' -- ' + note) if note else '')))
     n = sum(1 for v in res.values() if v['status'] == 'detected')
-    out.append('\nDetected %d of %d.' % (n, len(res)))
+    out.append('\nDetected now: %d of %d. Blind: round 1 %d of %d (most round-1 rules were written after reading the change), round 2 %d of %d.' % (
+        n, len(res), nb[1], nb[0], nb[3], nb[2]))
+    return '\n'.join(out)
+
+
+def benign_md():
+    f = '/verif/benign/RESULTS.json'
+    if not os.path.exists(f):
+        return '(no results yet)'
+    res = json.load(open(f))
+    out = ['| refactoring | kind | result | alarms |\n|---|---|---|---|']
+    n = a = 0
+    for k in sorted(res):
+        d = os.path.dirname(k)
+        kind = ''
+        mp = '/verif/benign/%s/meta.json' % d
+        if d and os.path.exists(mp):
+            try:
+                kind = str(json.load(open(mp)).get('kind', ''))[:90].replace('|', '/')
+            except Exception:
+                kind = ''
+        elif k.endswith('-rename.diff'):
+            kind = 'rename of local variables (written by the main session)'
+        v = res[k]
+        n += 1
+        if v['status'] != 'silent':
+            a += 1
+        al = '; '.join('%s %s' % (x['rule'], x['message'][:70].replace('|', '/')) for x in v.get('alarms', [])[:2])
+        out.append('| %s | %s | %s | %s |' % (d or k, kind, v['status'], al))
+    out.append('\n%d behaviour-preserving changes, %d silent, %d false alarms.' % (n, n - a, a))
     return '\n'.join(out)
 
 
 doc = open('/verif/DESIGN.md').read()
-for name, fn in (('rules', rules_md), ('mutants', mutants_md), ('seeded', seeded_md)):
+for name, fn in (('rules', rules_md), ('mutants', mutants_md), ('seeded', seeded_md), ('benign', benign_md)):
     b, e = '<!-- BEGIN:%s -->' % name, '<!-- END:%s -->' % name
     if b in doc and e in doc:
         doc = doc[:doc.index(b) + len(b)] + '\n' + fn() + '\n' + doc[doc.index(e):]
